@@ -71,5 +71,25 @@ Theorem host_bits_kept x : skipn m (image x) = skipn m x.
 Proof. apply PPHost.skipn_AB. Qed.
 Theorem lead_independent x x' : firstn m x = firstn m x' -> firstn m (image x) = firstn m (image x').
 Proof. intros E. unfold image. rewrite !PPHost.firstn_AB. now rewrite E. Qed.
+
+(* the same four facts for the undo direction, from AB (DB y) = y *)
+Definition preimage (y:bits) : bits := MemoProofs.DB H n B seeds y.
+Lemma image_preimage y : image (preimage y) = y.
+Proof. exact (MemoProofs.AB_DB H n B seeds y). Qed.
+Lemma preimage_len y : length (preimage y) = length y.
+Proof. exact (MemoProofs.DB_len H n B seeds y). Qed.
+Theorem undo_inside_stays_inside P y : In P seeds -> length P <= length y -> is_prefix P y = true -> is_prefix P (preimage y) = true.
+Proof.
+  intros Hin L Hy. destruct (is_prefix P (preimage y)) eqn:E; auto. exfalso.
+  pose proof (outside_stays_outside P (preimage y) Hin ltac:(rewrite preimage_len; exact L) E) as C.
+  rewrite image_preimage in C. congruence.
+Qed.
+Theorem undo_outside_stays_outside P y : In P seeds -> is_prefix P y = false -> is_prefix P (preimage y) = false.
+Proof.
+  intros Hin Hy. destruct (is_prefix P (preimage y)) eqn:E; auto. exfalso.
+  pose proof (inside_stays_inside P (preimage y) Hin E) as C. rewrite image_preimage in C. congruence.
+Qed.
+Theorem undo_host_bits_kept y : skipn m (preimage y) = skipn m y.
+Proof. rewrite <- (image_preimage y) at 2. symmetry. apply host_bits_kept. Qed.
 End S.
 Print Assumptions outside_stays_outside.
